@@ -301,15 +301,19 @@ package types
 //@   nopanic[C14,C15]
 //@   requires forall i int :: 0 <= i && i < len(options) ==> options[i] != nil
 //@?  pure
-//@?  ensures[C14] err == nil ==> result != nil && fresh(result)
-//@?  ensures[C14] err == nil ==> result.Services == nil || fresh(result.Services)
-//@?  ensures[C14] err == nil ==> forall k string :: has(result.Services, k) ==> mapsFresh(result.Services[k])
+// C14 ownership: the result and every container held by its services are made during the call (the loop ranges
+// over the services of the COPY, and the services it keeps are the copy's)
+//@   ensures[C14] err == nil ==> result != nil && fresh(result)
+//@   ensures[C14] err == nil ==> result.Services == nil || fresh(result.Services)
+//@   ensures[C14] err == nil ==> forall k string :: has(result.Services, k) ==> mapsFresh(result.Services[k])
 //@?  ensures[C15] err == nil ==> forall k string :: has(result.Services, k) ==> has(p.Services, k)
 //@?  ensures[C15] err == nil ==> forall k string, d string :: has(result.Services, k) && has(result.Services[k].DependsOn, d) ==> has(result.Services, d)
 //@   loop 1
-//@     invariant newProject != nil && enabled != nil
+//@     invariant newProject != nil && enabled != nil && fresh(newProject) && fresh(enabled)
+//@     invariant forall k string :: has(ranged, k) ==> mapsFresh(ranged[k])
+//@     invariant forall k string :: has(enabled, k) ==> mapsFresh(enabled[k])
 //@   loop 2
-//@     invariant newProject != nil && enabled != nil
+//@     invariant newProject != nil && enabled != nil && fresh(newProject) && fresh(enabled)
 
 //@ func (*Project).WithSelectedServices$1
 //@   nopanic[C15]
